@@ -126,7 +126,8 @@ type Spec struct {
 	Enums        []EnumSpec    `json:"enums"`
 	SelSets      []SelSetSpec  `json:"selsets"`
 	CallArgs     []CallArgSpec `json:"callargs"`
-	Guards       []SkelSpec    `json:"guards"` // functions whose `if` conditions are emitted as source text (Gen.Guard.<name>)
+	JSONKeys     []JSONKeySpec `json:"jsonkeys"` // see tables.go
+	Guards       []SkelSpec    `json:"guards"`   // functions whose `if` conditions are emitted as source text (Gen.Guard.<name>)
 	Conds        []CondSpec    `json:"conds"`
 	ModelImports []string      `json:"model_imports"` // hand-written Model modules (receiver structures of translated predicates)
 }
